@@ -142,6 +142,20 @@ Theorem C39_same_variable_reseeds_identically : forall st i f h s1 s2,
 Proof. exact same_variable_reseeds. Qed.
 Print Assumptions C39_same_variable_reseeds_identically.
 
+(* SEVERAL DRAWS IN ONE EXPRESSION: each draw hands out a value of its own.  Two plain draws combined in one
+   expression are the two successive sequence values: RND = RND is false from every state, RND - RND is
+   the Single that denotes (first - second) / 2^24 exactly *)
+Theorem C39_two_draws_in_one_expression : forall s,
+  step s (OExpr (XCmp 0) [None; None]) = (cycle (cycle s), Ok [0]) /\
+  step s (OExpr XSub [None; None]) = (cycle (cycle s), Ok (diff_bytes (cycle s) (cycle (cycle s)))).
+Proof. intros s. split; [exact (two_draws_differ s) | exact (two_draws_sub s)]. Qed.
+Print Assumptions C39_two_draws_in_one_expression.
+
+Theorem C39_difference_exact : forall a b, 0 <= a < 2 ^ 24 -> 0 <= b < 2 ^ 24 ->
+  (sng_valQ (diff_bytes a b) == (a - b) # 16777216)%Q.
+Proof. exact diff_bytes_valQ. Qed.
+Print Assumptions C39_difference_exact.
+
 (* non-vacuity: the hypotheses of the theorems above are satisfiable (stated without pinning the
    generator's constants, which the property text does not fix) *)
 Example C39_nonvacuous :
